@@ -10,7 +10,7 @@
 //       step / step_backward (the only callers in the crate) are panic-free for EVERY u32 pointer; jump_by itself is
 //       NOT for every i64: see the precondition on jump_by (finding).
 use vstd::prelude::*;
-//@dropped disassembly/mod.rs: `as_bytecode` (flat_map/collect), the TryFrom<&[u8]> / TryFrom<&str> constructors (the disassembler is unit disassemble; the round-trip assert_eq! is discharged by C10.dis.lossless there), From<InstructionStream> conversions, `instruction_as` (downcast_rs), `slice` (Range<u32>::is_empty, unwrap_or_else(panic!) closure), derived Clone/Debug
+//@dropped disassembly/mod.rs: `as_bytecode` and TryFrom<&[u8]> (under contract in unit disassemble: C10.dis.stream.*, the round-trip assert_eq! proved unreachable there), TryFrom<&str> (hex decoding; not under contract), From<InstructionStream> conversions, `instruction_as` (downcast_rs), `slice` (Range<u32>::is_empty, unwrap_or_else(panic!) closure), derived Clone/Debug
 //@dropped ExecutionThread::{instruction_pointer, current, instruction, jump, at, len}: under contract in unit control (not repeated)
 
 verus! {
